@@ -22,6 +22,7 @@ VENDORS = {
     # name: (vendor key in annet registry, model string pattern)
     "huawei-ce": ("huawei", "Huawei CE0000 SIM-%d"),
     "huawei": ("huawei", "Huawei S5700 SIM-%d"),
+    "huawei-ne": ("huawei", "Huawei NE40E SIM-%d"),
     "cisco": ("cisco", "Cisco Catalyst SIM-%d"),
     "nexus": ("nexus", "Cisco Nexus SIM-%d"),
     "arista": ("arista", "Arista SIM-%d"),
